@@ -501,6 +501,7 @@ def run_c18(chk, F, fs, tier, prefix=""):
                 break
         chk.expect(prefix + "V4.count", key, covered(r["cells"]) and prob is None, "VByte writer %s: %s" % (key, prob), sample={"writer": key, "cells": len(r["cells"])})
         chk.expect(prefix + "V4.continuation", key, prob is None and cprob is None, "VByte writer %s: %s" % (key, cprob or prob), sample={"writer": key})
+    run_vbyte_roundtrip(chk, F, fs, tier, prefix + "V5.roundtrip")
 
 
 # ---- C04.D3 / C03.K2: exact fields of the non-table writers, and replay of the reader on them -------------------------------
@@ -1206,3 +1207,114 @@ def vbyte_writes_clean(F, fs, which):
                     if not (v[0] == "int" and w[0] == "int" and w[2] == w[3] and v[2] >= 0 and v[3] < (1 << w[2])):
                         return False, "%s: on [%d, %d] a write of %s bits carries a value in [%s, %s]" % (key, c["y0"], c["y1"], w[2:4], v[2], v[3])
     return n > 0, "every emitted field within its width on every cell (%d writes over all 64-bit values)" % n
+
+
+# ---- VByte: the reader returns the value written, for every 64-bit value --------------------------------------------------------------
+VBYTE_PAIRS = [
+    ("vbyte_be.be", "<B as codes::vbyte::VByteBeWrite<E>>::write_vbyte_be", "<B as codes::vbyte::VByteBeRead<E>>::read_vbyte_be", {"E": BE}, True),
+    ("vbyte_be.le", "<B as codes::vbyte::VByteBeWrite<E>>::write_vbyte_be", "<B as codes::vbyte::VByteBeRead<E>>::read_vbyte_be", {"E": LE}, True),
+    ("vbyte_le.be", "<B as codes::vbyte::VByteLeWrite<E>>::write_vbyte_le", "<B as codes::vbyte::VByteLeRead<E>>::read_vbyte_le", {"E": BE}, True),
+    ("vbyte_le.le", "<B as codes::vbyte::VByteLeWrite<E>>::write_vbyte_le", "<B as codes::vbyte::VByteLeRead<E>>::read_vbyte_le", {"E": LE}, True),
+    ("vbyte_io_be", "codes::vbyte::vbyte_write_be", "codes::vbyte::vbyte_read_be", {}, "io"),
+    ("vbyte_io_le", "codes::vbyte::vbyte_write_le", "codes::vbyte::vbyte_read_le", {}, "io"),
+]
+
+
+def replay_vbyte(F, body, env, c, io):
+    """the VByte reader interpreted on a cell with the bytes the writer emitted there (abstract values: bit fields of the value
+    written); returns a problem or None"""
+    it = ivl.Interp(F, c.y0, c.y1)
+    queue = []
+    for ev in c.events:
+        if ev[0] == "byte":
+            queue.append(ev[1])
+        elif ev[0] == "bits" and isinstance(ev[2], AI) and ev[2].const() == 8:
+            queue.append(ev[1])
+        else:
+            return "for n in [%d, %d] the writer emits %s, not a byte" % (c.y0, c.y1, fmt_ev(ev))
+    total = len(queue)
+
+    def next_byte():
+        if not queue:
+            raise Unsupported("the reader asks for a byte after the %d bytes the writer emitted" % total)
+        v = queue.pop(0)
+        if not isinstance(v, AI):
+            raise Unsupported("emitted byte %r" % (v,))
+        return v
+
+    def r_bits(it_, name, args, fargs, fr, t):
+        n = args[1]
+        if not isinstance(n, AI) or n.const() != 8:
+            raise Unsupported("the reader reads %r bits where the writer wrote a byte" % (n,))
+        v = next_byte()
+        return mk_variant("std::result::Result", "Ok", [AI("u64", v.lo, v.hi, v.dir, v.aff, v.tag)])
+
+    def r_exact(it_, name, args, fargs, fr, t):
+        s = args[1]
+        if isinstance(s, Ref):
+            arr = it_.project(s.frame, s.frame.locals.get(s.local), s.proj)
+            if isinstance(arr, Agg) and arr.kind == "array":
+                s = Slice(s, 0, len(arr.fields))
+        if not isinstance(s, Slice):
+            raise Unsupported("read_exact into %r" % (s,))
+        for i in range(s.start, s.end):
+            v = next_byte()
+            it_.write_proj(s.ref.frame, s.ref.local, list(s.ref.proj) + [{"const_index": i}], AI("u8", v.lo, v.hi, v.dir, v.aff, v.tag))
+        return mk_variant("std::result::Result", "Ok", [ivl.UNIT])
+    hs = handlers()
+    hs["traits::bits::BitRead::read_bits"] = r_bits
+    hs["std::io::Read::read_exact"] = r_exact
+    it.handlers = hs
+    it.cfg = {}
+    try:
+        r = it.call_body(body, [STREAM], dict(env), 0)
+    except (Unsupported, Undecided, Panic) as e:
+        return "reader on n in [%d, %d]: %s: %s" % (c.y0, c.y1, type(e).__name__, e)
+    if queue:
+        return "for n in [%d, %d] the reader stops after %d of the %d bytes written" % (c.y0, c.y1, total - len(queue), total)
+    v = r.fields[0] if isinstance(r, Agg) and r.variant == "Ok" else r
+    if not (isinstance(v, AI) and ((v.aff is not None and v.dir is not None and tuple(v.aff) == (1, 0)) or (c.y0 == c.y1 and v.const() == c.y0))):
+        return "for n in [%d, %d] the reader returns %r, not the value written" % (c.y0, c.y1, v)
+    return None
+
+
+def _work_vbyte(job):
+    fs, key, wpath, rpath, env, recv = job
+    F = _F[fs]
+    try:
+        r = Run(F, key, F.body(wpath), env, (), {}, receiver=recv, hi=U64MAX, refine_const=True)
+        r.remerge()
+    except Unsupported as e:
+        return key, {"unsupported": str(e)}
+    except Exception as e:
+        return key, {"unsupported": "internal error: %r" % (e,)}
+    probs, n, bad = [], 0, None
+    for c in r.cells:
+        if c.status != "ok":
+            bad = "writer fails on [%d, %d]: %s" % (c.y0, c.y1, c.why)
+            continue
+        try:
+            p = replay_vbyte(F, F.body(rpath), env, c, recv == "io")
+        except Exception as e:
+            p = "internal error %r" % (e,)
+        if p:
+            probs.append(p)
+        else:
+            n += 1
+    return key, {"cells": len(r.cells), "replays": n, "problems": probs[:3], "domain": bad}
+
+
+def run_vbyte_roundtrip(chk, F, fs, tier, rule):
+    import multiprocessing as mp
+    chk.rule(rule, floor=6, doc="VByte round trip for every 64-bit value: each of the six readers (bit-stream BE/LE codes over both stream endiannesses, std::io BE/LE), interpreted on every cell of the writer's partition of [0, 2^64-1] with the bytes the writer emitted there (abstract bit fields of the value written: base-128 digits after the subtracted offsets), consumes exactly those bytes and returns the affine form 1*n + 0")
+    _F[fs] = F
+    jobs = [(fs, k, w, r, env, recv) for k, w, r, env, recv in VBYTE_PAIRS]
+    with mp.get_context("fork").Pool(len(jobs)) as pool:
+        res = dict(pool.imap_unordered(_work_vbyte, jobs, chunksize=1))
+    for k, w, r, env, recv in VBYTE_PAIRS:
+        x = res[k]
+        if "unsupported" in x:
+            chk.bad(rule, k, "VByte writer %s cannot be evaluated: %s" % (k, x["unsupported"]))
+            continue
+        chk.expect(rule, k, not x["problems"] and not x["domain"] and x["replays"] > 0, "VByte %s: %s" % (k, "; ".join(x["problems"]) or x["domain"] or "no cell replayed"),
+                   sample={"pair": k, "cells_replayed": x["replays"]})
